@@ -108,6 +108,7 @@ class SetResult:
         self.build_s = 0.0
         self.run_s = 0.0
         self.max_orders = 0
+        self.hung = []
         self.crosschecks = 0
         self.unpruned_executions = 0
 
@@ -175,8 +176,28 @@ def run_set(exe, setname, progs, shards=None, timeout=3000):
     shards = shards or NCPU
     t0 = time.time()
 
+    # a shard normally needs seconds (quick) / minutes (thorough); an execution that blocks forever inside the code under test
+    # (a poll or a thread that never returns) is turned into a verdict for the program that was running
+    limit = int(os.environ.get("VERIF_E3_TIMEOUT", "240" if os.environ.get("VERIF_TIER_RUNNING", "quick") == "quick" else "3000"))
+    order = [p.id for p in progs]
+    hung = []
+
     def one(s):
-        p = subprocess.run([exe], env=cargo_env({"VS_SET": setname, "VS_SHARD": str(s), "VS_NSHARDS": str(shards)}), stdout=subprocess.PIPE, stderr=subprocess.PIPE, text=True, timeout=timeout)
+        try:
+            p = subprocess.run([exe], env=cargo_env({"VS_SET": setname, "VS_SHARD": str(s), "VS_NSHARDS": str(shards)}), stdout=subprocess.PIPE, stderr=subprocess.PIPE, text=True, timeout=limit)
+        except subprocess.TimeoutExpired as e:
+            out = e.stdout.decode() if isinstance(e.stdout, bytes) else (e.stdout or "")
+            done = set()
+            for line in out.splitlines():
+                if line.startswith("{") and '"id"' in line:
+                    try:
+                        done.add(json.loads(line)["id"])
+                    except ValueError:
+                        pass
+            mine = [pid for i, pid in enumerate(order) if i % shards == s]
+            first = next((pid for pid in mine if pid not in done), None)
+            hung.append((first, [pid for pid in mine if pid not in done]))
+            return out
         if p.returncode != 0:
             raise MachineryError("E3-A shard %d of set %s exited with %d:\n%s" % (s, setname, p.returncode, p.stderr[-2000:]))
         return p.stdout
@@ -211,7 +232,9 @@ def run_set(exe, setname, progs, shards=None, timeout=3000):
                     raise MachineryError("violation of %s did not reproduce when its schedule was replayed: %s" % (d["id"], v["what"]))
                 res.violations.append((by_id[d["id"]], v, d["nviol"]))
     res.programs = len(progs)
-    missing = [p.id for p in progs if p.id not in res.results]
+    res.hung = hung
+    skipped = {pid for _, rest in hung for pid in rest}
+    missing = [p.id for p in progs if p.id not in res.results and p.id not in skipped]
     if missing:
         raise MachineryError("no E3-A result for %d programs, e.g. %s" % (len(missing), missing[:3]))
     return res
